@@ -69,12 +69,10 @@ def o2(W, ob):
     ob.require_count(len(enc), 1, 'encode call in send_pending_output')
     for t in enc:
         ref = key(cx.expr_operand(t.args[0]))
-        src = trace_back(W, s, t.args[1], through={'map'})
+        # only `map` may sit between the iterator over the whole queue and the encoder (no take/skip/filter/step_by)
+        src = trace_back(W, s, t.args[1], through={'map'}, strict=True)
         whole = bool(src) and src[0] == 'call' and last_seg(src[1].callee.best) == 'iter' and \
-            cx.ap_carry(src[1].args[0].place).s(s) == 'self.pending_output'
-        # trace_back passes through iter as well; accept when the chain bottoms out at the pending_output field itself
-        if src and src[0] == 'place':
-            whole = cx.ap_of_place(src[1]).s(s) == 'self.pending_output'
+            src[1].args and src[1].args[0].is_place() and cx.ap_carry(src[1].args[0].place).s(s) == 'self.pending_output'
         ob.check(ref.endswith('last_acked_input.bytes') and whole, 'send_pending_output|encode-all',
                  'all pending inputs are encoded against the last acknowledged input',
                  'encode(reference=%s, inputs=%s): expected last_acked_input.bytes and an iterator over the whole '
